@@ -341,10 +341,13 @@ class C10(core.Check):
 
     def known(self, case, obs, clauses):
         # C10-K1: EPIPE is the only hard fault in the case, and the only complaints are the EPIPE-specific ones
-        if case[0] == "cliw" and case[1] == "remotertls" and case[2] and any(o[0] == "rst" for o in case[3]) \
-                and all(c.split(":")[0] in ("service-raised", "fault-not-marked") for c in clauses):
-            return "C10-K3"
-        if not clauses or not all(c.endswith(":epipe-only") for c in clauses):
+        if not clauses:
+            return None
+        if not all(c.endswith(":epipe-only") for c in clauses):
+            # C10-K3 (fixed by 42ebe80; kept so that an old tree is still recognised): RemoterTls + wire log + peer reset
+            if case[0] == "cliw" and case[1] == "remotertls" and case[2] and any(o[0] == "rst" for o in case[3]) \
+                    and all(c.split(":")[0] in ("service-raised", "fault-not-marked") for c in clauses):
+                return "C10-K3"
             return None
         if case[0] == "site" and obs == ("outcome", "raisedOS") and case[1].split("_")[1] in ("send", "recv"):
             return "C10-K1"
